@@ -624,6 +624,7 @@ func srv0(h *harness.Client) *harness.SrvConn {
 }
 
 func runC18(c *fw.Ctx) {
+	runSpxFamily(c, "C18")
 	thorough := c.Tier == "thorough"
 	var item int64
 	sampled := 0
